@@ -51,9 +51,13 @@ def receiveRent (env : Env) (f : Funder) (tgt : Key) (s : St) : Res Unit × St :
     (if lam = 0 then (.ok (), s) else fundRent env f tgt (rent - lam) s)
   else (.ok (), s)
 
+/-- `resize(W)` then `fill(0xFF)`. -/
+def markClosed (W : Nat) (tgt : Key) (w : World) : World :=
+  w.set tgt { w tgt with data := List.replicate W 255 }
+
 /-- `close_account` for a type with a `W`-byte discriminant. -/
 def closeAccount (W : Nat) (recipient : Key) (tgt : Key) (s : St) : Res Unit × St :=
-  let s1 : St := { s with w := s.w.set tgt { s.w tgt with data := List.replicate W 255 } }
+  let s1 : St := { s with w := markClosed W tgt s.w }
   match addLamports recipient (s1.w tgt).lamports s1 with
   | (.ok (), s2) => (.ok (), { s2 with w := setLamports s2.w tgt 0 })
   | r => r
